@@ -393,7 +393,7 @@ PROPS['C13'] = dict(
          'No axioms.')
 
 PROPS['C16'] = dict(
-    sess=[('drain_c16', 300, 5000), ('drain_base', 200, 4000), ('drain_c06', 150, 3000), ('drain_c03', 100, 2000), ('py_hist', 200, 3000), ('py_c16f', 150, 1500)],
+    sess=[('drain_c16', 300, 5000), ('drain_base', 200, 4000), ('drain_c06', 150, 3000), ('drain_c03', 100, 2000), ('py_hist', 200, 3000), ('py_mixed', 200, 2000), ('py_c16f', 150, 1500)],
     events='wrf', state=['ret', 'ctl', 'rel', 'srv', 'quota', 'h', 'conn', 'live', 'pq', 'cp', 'gen'],
     monitors=[M.mon_c16, M.mon_c16_flush, M.mon_hist, M.mon_refused_too_large, M.mon_panic],
     title='with a responsive broker every accepted operation completes; the session quiesces',
@@ -426,7 +426,8 @@ PROPS['C16'] = dict(
           'accepts every valid request that fits - hence connect followed by ANY list of acknowledged requests, each with its '
           'poll() (two for QoS 2), completes every request and ends idle (C16_connect_then_history_completes, '
           'C16_history_completes_static, C16_exchange_idle_to_idle; hypotheses proved satisfiable). The conclusion of that theorem '
-          'is also read off the implementation (suite py_hist, monitor mon_hist). '
+          'is also read off the implementation (suite py_hist, monitor mon_hist). The same with inbound QoS 0 messages arriving '
+          'between the requests, in any order and number (Mixed.v: C16_mixed_history_completes, C16_message_idle; suite py_mixed). '
           'Quiescence of arbitrary backlogs is checked: every generated '
           'history (faults, cancellations, reconnects, small arenas, Receive Maximum pressure), followed by the benign continuation - '
           'transport healed, broker answering every packet including the CONNECT (session present iff no clean start), reconnect, 40 '
